@@ -403,6 +403,10 @@ def subpath_constraints(rng, g, max_c=2, contiguous_only=False):
             continue
         i = rng.randrange(len(es))
         j = rng.randrange(i, len(es))
+        if len(es) >= 2 and rng.random() < 0.7:
+            # prefer constraints of at least two edges
+            i = rng.randrange(len(es) - 1)
+            j = rng.randrange(i + 1, len(es))
         seg = es[i:j + 1]
         if not contiguous_only and len(seg) > 2 and rng.random() < 0.4:
             # drop an inner edge: a gapped sequence
@@ -413,9 +417,12 @@ def subpath_constraints(rng, g, max_c=2, contiguous_only=False):
             if e not in seen:
                 seen.append(e)
         out.append([list(e) for e in seen])
-    if out and g.get("zero_flow_edges") and rng.random() < 0.6:
+    if out and g.get("zero_flow_edges") and rng.random() < 0.7:
         # a subset constraint may also name an edge no generating route uses
-        out[0] = out[0] + [list(e) for e in g["zero_flow_edges"][:1] if list(e) not in out[0]]
+        z = rng.choice(g["zero_flow_edges"])
+        if list(z) not in out[0]:
+            out[0] = out[0] + [list(z)]
+            g["_constraint_has_unused_edge"] = True
     if out and rng.random() < 0.2:
         out.append([list(e) for e in out[0]])   # duplicated constraint
     return out
